@@ -252,6 +252,109 @@ theorem sound_line9_core {ctx : Ctx} {Mb : Nat} {q : Query} {G : MG Name} (hq : 
       (xs := (nsort c).filter (· ∉ q.Y)) ((nsort_nodup' c).filter _)
       (fun v => by simp [mem_diff', List.mem_filter, mem_nsort])]
 
+theorem TrsoAux.mem_vnames_plainVars (n : Name) (l : List Name) : n ∈ vnames (plainVars l) ↔ n ∈ l := by
+  unfold vnames
+  rw [List.mem_map]
+  constructor
+  · rintro ⟨v, hv, rfl⟩
+    obtain ⟨m, hm, rfl⟩ := (mem_plainVars v l).1 hv
+    exact hm
+  · intro hn
+    exact ⟨Var.plain n, (mem_plainVars _ l).2 ⟨n, hn, rfl⟩, rfl⟩
+
+/-- the conditional `P[dom](node | predecessors)` read off a carried joint is the factor of Tian's formula -/
+theorem TrsoAux.line10_joint_sem {ctx : Ctx} {Mb : Nat} {q : Query} {G : MG Name} (hq : QInv Mb q G)
+    {order l1 l2 : List Name} {node : Name} (hord : regularOrder G = .ok order)
+    (hsplit : order = l1 ++ node :: l2) {c : List Var} (jc : JC ctx q G c) :
+    Good ctx.S (.prob (some (popVar q.domain)) [Var.plain node] (plainVars l1)) ∧
+      ∀ σ, ctx.leaf (some (popVar q.domain)) [Var.plain node] (plainVars l1) σ =
+        sumVars ctx.M.card l2 (ctx.M.Q order) σ / sumVars ctx.M.card (node :: l2) (ctx.M.Q order) σ := by
+  obtain ⟨hnd, hmem, _⟩ := regularOrder_spec hq.wfG hord
+  have hnd' : (l1 ++ node :: l2).Nodup := hsplit ▸ hnd
+  have hnd2 : (node :: l2).Nodup := (List.nodup_append.mp hnd').2.1
+  have hl2nd : l2.Nodup := (List.nodup_cons.mp hnd2).2
+  have hvl1 : node ∉ l1 := fun hc => (List.nodup_append.mp hnd').2.2 node hc node List.mem_cons_self rfl
+  have hvl2 : node ∉ l2 := (List.nodup_cons.mp hnd2).1
+  have hl1l2 : ∀ x ∈ l1, x ∉ l2 := fun x hx hx2 =>
+    (List.nodup_append.mp hnd').2.2 x hx x (List.mem_cons_of_mem _ hx2) rfl
+  have hordm : ∀ x, x ∈ regularNodes G ↔ x ∈ l1 ∨ x = node ∨ x ∈ l2 := by
+    intro x; rw [← hmem x, hsplit]; simp
+  have hQ : ctx.M.Q (regularNodes G) = ctx.M.Q order :=
+    ctx.M.Q_congr_set (regularNodes_nodup hq.wfG) hnd (fun x => (hmem x).symm)
+  have hvars : ∀ v ∈ [Var.plain node] ++ plainVars l1,
+      (v.ivs = [] ∧ v.star = none) ∧ v.name ∈ regularNodes G := by
+    intro v hv
+    rcases List.mem_append.1 hv with hv | hv
+    · rw [List.mem_singleton] at hv
+      subst hv
+      exact ⟨⟨rfl, rfl⟩, (hordm node).2 (Or.inr (Or.inl rfl))⟩
+    · obtain ⟨m, hm, rfl⟩ := (mem_plainVars v l1).1 hv
+      exact ⟨⟨rfl, rfl⟩, (hordm m).2 (Or.inl hm)⟩
+  have hS1 : ∀ n ∈ vnames ([Var.plain node] ++ plainVars l1), n ∈ regularNodes G ∨ n ∈ ctx.ign := by
+    intro n hn
+    obtain ⟨v, hv, rfl⟩ := List.mem_map.1 hn
+    exact Or.inl (hvars v hv).2
+  have hS2 : ∀ n ∈ vnames (plainVars l1), n ∈ regularNodes G ∨ n ∈ ctx.ign := fun n hn =>
+    Or.inl ((hordm n).2 (Or.inl ((TrsoAux.mem_vnames_plainVars n l1).1 hn)))
+  refine ⟨⟨trivial, jc.adm (fun v hv => (hvars v hv).1) (fun v hv => Or.inl (hvars v hv).2)⟩, fun σ => ?_⟩
+  rw [ctx.S.leaf_eq (some (popVar q.domain)) [] [Var.plain node] (plainVars l1) jc.okW
+    (fun v hv => ⟨(hvars v hv).1.1, (hvars v hv).1.2, jc.okN v.name (Or.inl (hvars v hv).2)⟩) σ,
+    jc.marg _ hS1 σ, jc.marg _ hS2 σ, hQ]
+  congr 1
+  · refine congrFun (sumVars_congr_set ctx.M.card ((regularNodes_nodup hq.wfG).filter _) hl2nd (fun x => ?_) _) σ
+    simp only [List.mem_filter, decide_eq_true_eq, hordm x, vnames, List.map_append, List.mem_append,
+      List.map_cons, List.map_nil, List.mem_singleton]
+    rw [show x ∈ (plainVars l1).map (·.name) ↔ x ∈ l1 from TrsoAux.mem_vnames_plainVars x l1]
+    show (_ ∧ ¬ (x = node ∨ x ∈ l1)) ↔ _
+    constructor
+    · rintro ⟨h1 | h1 | h1, h2⟩
+      · exact absurd (Or.inr h1) h2
+      · exact absurd (Or.inl h1) h2
+      · exact h1
+    · intro h1
+      exact ⟨Or.inr (Or.inr h1), fun h2 => h2.elim (fun e => hvl2 (e ▸ h1)) (fun h3 => hl1l2 x h3 h1)⟩
+  · refine congrFun (sumVars_congr_set ctx.M.card ((regularNodes_nodup hq.wfG).filter _) hnd2 (fun x => ?_) _) σ
+    simp only [List.mem_filter, decide_eq_true_eq, hordm x, List.mem_cons]
+    rw [TrsoAux.mem_vnames_plainVars x l1]
+    constructor
+    · rintro ⟨h1 | h1 | h1, h2⟩
+      · exact absurd h1 h2
+      · exact Or.inl h1
+      · exact Or.inr h1
+    · rintro (h1 | h1)
+      · exact ⟨Or.inr (Or.inl h1), fun h2 => hvl1 (h1 ▸ h2)⟩
+      · exact ⟨Or.inr (Or.inr h1), fun h2 => hl1l2 x h2 h1⟩
+
+/-- one factor of line 10 is the factor of Tian's formula -/
+theorem TrsoAux.line10_factor_sem {ctx : Ctx} {Mb : Nat} {q : Query} {G : MG Name} (hq : QInv Mb q G)
+    (h : SemInv ctx q G) {order : List Name} (hord : regularOrder G = .ok order) {cj : Bool}
+    (hT : cj = true → ∃ c, JC ctx q G c) (hF : cj = false → Wf OneName (fun _ => True) q.expr)
+    {node : Name} {f : Expr} (hf : line10Factor q order cj node = .ok f) :
+    Good ctx.S f ∧ SumND f ∧ Wf OneName (fun _ => True) f ∧
+      ∀ σ, denL ctx.M.card ctx.leaf f σ = TrsoAux.ratioVal ctx.M order σ node := by
+  have hnd := (regularOrder_spec hq.wfG hord).1
+  unfold line10Factor at hf
+  obtain ⟨i, hi, hf⟩ := bind_ok hf
+  obtain ⟨l1, l2, hsplit, hlen, _⟩ := indexOf_split hi
+  rw [← hlen] at hf
+  cases cj with
+  | true =>
+    simp only [if_true, pure, Except.pure, Except.ok.injEq] at hf
+    subst hf
+    obtain ⟨c, jc⟩ := hT rfl
+    have htake : order.take l1.length = l1 := by rw [hsplit, List.take_left]
+    rw [htake]
+    obtain ⟨g, v⟩ := TrsoAux.line10_joint_sem hq hord hsplit jc
+    refine ⟨g, trivial, ?_, fun σ => ?_⟩
+    · intro v hv w hw
+      rw [List.mem_singleton] at hv hw
+      rw [hv, hw]
+    · rw [TrsoAux.denL_prob, v σ, TrsoAux.ratioVal_split ctx.M hnd hsplit σ]
+  | false =>
+    simp only [Bool.false_eq_true, if_false] at hf
+    obtain ⟨g, n, w, v⟩ := den_ratio hq h hord hsplit hf
+    exact ⟨g, n, w (hF rfl), fun σ => by rw [v σ, TrsoAux.ratioVal_split ctx.M hnd hsplit σ]⟩
+
 /-- **line 10**: the expression carried into the recursion on the district `c'` denotes `Q[c']`; its leaves have one
 child name each; when the carried expression was not a joint the ratio branch was taken -/
 theorem sound_line10_core {ctx : Ctx} {Mb : Nat} {q q' : Query} {G : MG Name} (hq : QInv Mb q G) (h : SemInv ctx q G)
@@ -259,7 +362,54 @@ theorem sound_line10_core {ctx : Ctx} {Mb : Nat} {q q' : Query} {G : MG Name} (h
     (hq' : line10 q G c' s = .ok q') :
     Good ctx.S q'.expr ∧ SumND q'.expr ∧ Wf OneName (fun _ => True) q'.expr ∧
       ∀ σ, denL ctx.M.card ctx.leaf q'.expr σ = ctx.M.Q (nsort c') σ := by
-  sorry
+  unfold line10 at hq'
+  obtain ⟨order, hord, hq'⟩ := bind_ok hq'
+  simp only [] at hq'
+  obtain ⟨factors, hfac, hq'⟩ := bind_ok hq'
+  obtain ⟨e', he', hq'⟩ := bind_ok hq'
+  simp only [pure, Except.pure, Except.ok.injEq] at hq'
+  subst hq'
+  simp only []
+  have hfs : ∃ cj, (cj = true → ∃ c, JC ctx q G c) ∧ (cj = false → Wf OneName (fun _ => True) q.expr) ∧
+      (nsort c').mapM (line10Factor q order cj) = .ok factors := by
+    revert hfac
+    split
+    · rename_i pop c hexpr
+      intro hfac
+      refine ⟨true, fun _ => ?_, fun hc => (by cases hc), hfac⟩
+      rcases h.shape with ⟨pop', c2, hexpr', jc⟩ | ⟨hnj, _⟩
+      · exact ⟨c2, jc⟩
+      · exact absurd hexpr (hnj _ _)
+    · rename_i hno
+      intro hfac
+      refine ⟨false, fun hc => (by cases hc), fun _ => ?_, hfac⟩
+      rcases h.shape with ⟨pop', c2, hexpr', _⟩ | ⟨_, hwf⟩
+      · exact absurd hexpr' (hno pop' c2)
+      · exact hwf
+  obtain ⟨cj, hT, hF, hfac'⟩ := hfs
+  have hall : ∀ f ∈ factors, Good ctx.S f ∧ SumND f ∧ Wf OneName (fun _ => True) f := by
+    intro f hf
+    obtain ⟨node, _, hnode⟩ := mapM_ok hfac' f hf
+    obtain ⟨g, n, w, _⟩ := TrsoAux.line10_factor_sem hq h hord hT hF hnode
+    exact ⟨g, n, w⟩
+  have hmap : ∀ (D' : List Name) (fs' : List Expr),
+      List.Forall₂ (fun a b => line10Factor q order cj a = .ok b) D' fs' →
+      ∀ σ, fs'.map (denL ctx.M.card ctx.leaf · σ) = D'.map (TrsoAux.ratioVal ctx.M order σ) := by
+    intro D' fs' hF2 σ
+    induction hF2 with
+    | nil => rfl
+    | cons h1 _ ih =>
+      simp only [List.map_cons]
+      rw [(TrsoAux.line10_factor_sem hq h hord hT hF h1).2.2.2 σ, ih]
+  have gP : Good ctx.S (productSafe factors) := good_productSafe ctx.S (fun f hf => (hall f hf).1)
+  have nP : SumND (productSafe factors) := sumND_productSafe (fun f hf => (hall f hf).2.1)
+  refine ⟨good_canonicalize ctx.S gP he', sumND_canonicalize nP he',
+    wf_canonicalize oneName_mono (wf_productSafe ((wfList_iff _ _ _).2 (fun f hf => (hall f hf).2.2))) he',
+    fun σ => ?_⟩
+  rw [denL_canonicalize ctx.S gP nP he' σ, denL_productSafe,
+    hmap _ _ ((mapM_ok_iff _ _ _).mp hfac') σ]
+  exact TrsoAux.tian_prod hq h hord hc' (nsort_nodup' c') (fun v => mem_nsort v c')
+    (fun v hv => hcT v ((mem_nsort v c').1 hv)) σ
 
 end Trso
 end Y0
